@@ -117,7 +117,10 @@ fn cclient_path() -> String {
 }
 
 /// one request to the C client; `crash <signal|exit code>` if the process died on it
-fn c_request(req: &str) -> String {
+pub fn c_request(req: &str) -> String { c_request_bytes(req.as_bytes()) }
+
+/// the same with a request that need not be UTF-8 (a path with arbitrary bytes)
+pub fn c_request_bytes(req: &[u8]) -> String {
     let mut g = CPROC.lock().unwrap();
     if g.is_none() {
         let p = cclient_path();
@@ -130,7 +133,7 @@ fn c_request(req: &str) -> String {
         *g = Some(CProc { child, stdin, stdout });
     }
     let pr = g.as_mut().unwrap();
-    let sent = writeln!(pr.stdin, "{}", req).and_then(|_| pr.stdin.flush());
+    let sent = pr.stdin.write_all(req).and_then(|_| pr.stdin.write_all(b"\n")).and_then(|_| pr.stdin.flush());
     let mut ans = String::new();
     let got = if sent.is_ok() { pr.stdout.read_line(&mut ans).unwrap_or(0) } else { 0 };
     if got == 0 {
@@ -189,6 +192,30 @@ fn in_unprivileged_child(f: impl FnOnce() -> String) -> String {
 /// started without stdin: `open(2)` then legitimately returns 0)
 fn exec_open(toks: &[&str]) -> String {
     let nofd0 = toks[0] == "open0";
+    if toks[0] == "openb" {
+        // the segment's name is not valid UTF-8 (a Latin-1 directory, a file name from another locale): a path is
+        // bytes to open(2), and so it is to ShmReader::new (a &CStr) and to clockbound_open (a const char *). The
+        // Rust client takes a &str: it gets a UTF-8 symbolic link to the same file.
+        use std::os::unix::ffi::OsStringExt;
+        let (prior, _) = parse_prior(&toks[1..]);
+        let mut raw = format!("{}/hdr-caf", scratch_dir()).into_bytes();
+        raw.extend_from_slice(b"\xE9-\xFF\xFE.shm");
+        let os: std::ffi::OsString = std::ffi::OsString::from_vec(raw.clone());
+        let pb = std::path::PathBuf::from(os);
+        let _ = std::fs::remove_file(&pb); let _ = std::fs::remove_dir_all(&pb);
+        match &prior { Prior::Missing => (), Prior::Dir => std::fs::create_dir(&pb).unwrap(), Prior::File(b) => std::fs::write(&pb, b).unwrap() }
+        let link = format!("{}/hdr-link", scratch_dir());
+        let _ = std::fs::remove_file(&link);
+        std::os::unix::fs::symlink(&pb, &link).unwrap();
+        let cpath = CString::new(raw.clone()).unwrap();
+        let r1 = match guarded(|| ShmReader::new(cpath.as_c_str()).map(|_| ())) { Ok(Ok(())) => "ok".to_string(), Ok(Err(e)) => shm_err_text(&e), Err(_) => "panic".into() };
+        let l2 = link.clone();
+        let r2 = match guarded(move || ClockBoundClient::new_with_path(&l2).map(|_| ())) { Ok(Ok(())) => "ok".to_string(), Ok(Err(e)) => client_err_text(&e), Err(_) => "panic".into() };
+        let mut req = b"copen ".to_vec(); req.extend_from_slice(&raw);
+        let r3 = c_request_bytes(&req);
+        let _ = std::fs::remove_file(&link); let _ = std::fs::remove_file(&pb); let _ = std::fs::remove_dir_all(&pb);
+        return format!("{} ; {} ; {}", r1, r2, r3);
+    }
     if toks[0] == "openu" {
         // the two Rust opens as an unprivileged process without any lockable memory
         let (prior, _) = parse_prior(&toks[1..]);
@@ -374,7 +401,7 @@ fn exec_sandwich(toks: &[&str]) -> String {
 
 pub fn exec(toks: &[&str], _line: &str) -> Option<String> {
     match toks.first().copied() {
-        Some("open") | Some("open0") | Some("openu") => Some(exec_open(toks)),
+        Some("open") | Some("open0") | Some("openu") | Some("openb") => Some(exec_open(toks)),
         Some("seg") => Some(exec_seg(toks)),
         Some("snap") => Some(exec_snap(toks)),
         Some("sandwich") => Some(exec_sandwich(toks)),
@@ -517,7 +544,13 @@ pub fn gen_open(seed: u64, count: usize) -> Vec<String> {
     v.push(format!("openu {}", Prior::File(segment(MAGIC0, MAGIC1, 1 << 20, 1, 2, &[1, 2, 3, 4, 5, 6, 7, 1])).text()));
     v.push("openu missing".to_string());
     v.push(format!("openu {}", Prior::File(vec![1, 2, 3]).text()));
-    for i in 0..count { let p = random_prior(&mut rng).text(); if i % 16 == 0 { v.push(format!("openu {}", p)); } v.push(format!("open {}", p)); }
+    // the same opens of a segment whose name is not valid UTF-8
+    v.push(format!("openb {}", Prior::File(segment(MAGIC0, MAGIC1, 72, 1, 2, &[1, 2, 3, 4, 5, 6, 7, 1])).text()));
+    v.push(format!("openb {}", Prior::File(segment(MAGIC0, MAGIC1, 72, 0, 2, &[1, 2, 3, 4, 5, 6, 7, 1])).text()));
+    v.push(format!("openb {}", Prior::File(segment(MAGIC0, MAGIC1, 71, 1, 2, &[1, 2, 3, 4, 5, 6, 7, 1])).text()));
+    v.push("openb missing".to_string());
+    v.push("openb dir".to_string());
+    for i in 0..count { let p = random_prior(&mut rng).text(); if i % 16 == 0 { v.push(format!("openu {}", p)); } if i % 16 == 8 { v.push(format!("openb {}", p)); } v.push(format!("open {}", p)); }
     v
 }
 
